@@ -540,7 +540,9 @@ func (w *world) run() {
 				if len(lines) < 2 {
 					continue
 				}
-				keep := t.Choose(len(lines), "torn-keep-lines")
+				// (at least one line stays: an empty file reads as one empty literal, which - like a
+				// cut in the middle of a line - nobody can tell from an intended one)
+				keep := 1 + t.Choose(len(lines)-1, "torn-keep-lines")
 				cut := strings.Join(lines[:keep], "\n")
 				// (Cut at a line boundary. A cut in the middle of a line usually leaves a shorter but
 				// well-formed literal, which no reader of this file format can tell from an
@@ -681,8 +683,26 @@ func simWorld(rc *kernel.RunCtx) {
 		return
 	}
 	os.Setenv("TEMPL_DEV_MODE_ROOT", root)
-	w := &world{rc: rc, k: k, t: t, fam: families[t.Choose(len(families), "family")], midAt: -1, readVar: -2, renderMid: -1}
 	var simDur time.Duration
+	if rc.Run%5 == 4 {
+		// every fifth run: the orchestration of `templ generate --watch --cmd` (pipeline_test.go)
+		os.RemoveAll(root)
+		esc := kernel.Bubble(rc.TB, func() {
+			start := time.Now()
+			pipelineWorld(rc, k)
+			simDur = time.Since(start)
+		})
+		templruntime.SetDevelopmentMode(false)
+		if esc != "" && !rc.Failed() {
+			rc.Fail("C16/pipeline/panic", "%s", kernel.FirstLines(esc, 12))
+		}
+		rc.Res.SimNanos = int64(simDur)
+		rc.Finish(k)
+		rc.Res.Nontriv = k.Stats["edits"] > 0
+		rc.Res.Key = rc.Res.LogHash
+		return
+	}
+	w := &world{rc: rc, k: k, t: t, fam: families[t.Choose(len(families), "family")], midAt: -1, readVar: -2, renderMid: -1}
 	esc := kernel.Bubble(rc.TB, func() {
 		simos.SetHook(&simos.HookT{Now: time.Now, Before: func(op, path string) simos.Fault { w.onOSCall(op, path); return simos.Fault{} }, Overlay: func(p string) ([]byte, time.Time, bool) {
 			if p == w.filePath {
